@@ -489,12 +489,194 @@ func fixKinds(sc *scen, _ *rand.Rand) {
 	}
 }
 
+// ---- hand-shake family: client.Close() lands between a call's registration on the connection and its look at the
+// connection's state. The connection of a fresh client is still in synchronous mode (no background worker yet); the
+// first call registers itself as the only waiter (hook "pipe.do.registered", waits == 1) and is held there; Close runs
+// on another goroutine and releases the call right after it has switched the connection to "closing"
+// (hook "pipe.close.swapped"). Whatever the interleaving, the call must return, Close must return and the
+// connection's teardown must finish: nothing of the client may stay parked when the bubble ends.
+
+type hsScen struct {
+	name  string
+	kind  string // Do | DoMulti | DoCache | DoMultiCache | Receive
+	ctx   string // background | deadline | cancel
+	queue string
+	scale int
+}
+
+func (h hsScen) String() string {
+	return fmt.Sprintf("%s handshake call=%s ctx=%s queue=%s/%d", h.name, h.kind, h.ctx, h.queue, 2<<(h.scale-1))
+}
+
+func genHandshakes() []hsScen {
+	var out []hsScen
+	for _, q := range []struct {
+		q string
+		s int
+	}{{"ring", 10}, {"flowbuffer", 1}} {
+		for _, kind := range []string{"Do", "DoMulti", "DoCache", "DoMultiCache", "Receive"} {
+			for _, cx := range []string{"background", "deadline", "cancel"} {
+				out = append(out, hsScen{name: fmt.Sprintf("h%d", len(out)), kind: kind, ctx: cx, queue: q.q, scale: q.s})
+			}
+		}
+	}
+	return out
+}
+
+func runHandshake(run *mon.Run, h hsScen) {
+	rueidis.VerifSetQueueType(h.queue)
+	defer rueidis.VerifSetQueueType("")
+	srv := fakeredis.New(fakeredis.Options{Seed: run.Seed}, addr)
+	opt := drv.Option(srv, addr)
+	opt.ForceSingleClient = true
+	opt.PipelineMultiplex = -1 // a single wire
+	opt.RingScaleEachConn = h.scale
+	opt.AlwaysPipelining = false // the wire starts in synchronous mode
+	opt.DisableRetry = true
+	opt.Dialer.KeepAlive = time.Minute // no keep-alive ping during the history
+	client, err := rueidis.NewClient(opt)
+	if err != nil {
+		run.Inconclusive("handshake client setup: " + err.Error())
+		srv.Close()
+		return
+	}
+	srv.Node(addr).Exec("SET", "ck", "cv")
+
+	// hooks are process-global: installed after the client's own set-up traffic, removed before the bubble ends; they act
+	// on the first wire that registers a first waiter only and never touch harness locks while waiting
+	var heldPipe atomic.Value // the *pipe of the held call, as an opaque value
+	var held, released, stopping1, expired atomic.Bool
+	var closeHooks atomic.Int32
+	release := make(chan struct{})
+	rueidis.VerifSetHook(func(point string, args ...any) {
+		switch point {
+		case "pipe.do.registered":
+			if w, _ := args[1].(uint32); w != 1 || !held.CompareAndSwap(false, true) {
+				return
+			}
+			heldPipe.Store(args[0])
+			select {
+			case <-release:
+			case <-time.After(30 * time.Second): // virtual; the hand-shake did not happen: do not wedge the driver
+				expired.Store(true)
+			}
+		case "pipe.close.swapped":
+			if !held.Load() || heldPipe.Load() != args[0] {
+				return
+			}
+			closeHooks.Add(1)
+			if released.CompareAndSwap(false, true) {
+				s1, _ := args[1].(bool) // args: pipe, stopping1 (state 0 -> 2), stopping2 (state 1 -> 2)
+				stopping1.Store(s1)
+				close(release)
+			}
+		}
+	})
+	defer rueidis.VerifSetHook(nil)
+
+	ctx, cancel := context.Background(), context.CancelFunc(func() {})
+	switch h.ctx {
+	case "deadline":
+		ctx, cancel = context.WithTimeout(ctx, time.Hour)
+	case "cancel":
+		ctx, cancel = context.WithCancel(ctx)
+	}
+	defer cancel()
+	var callReturned, closeReturned atomic.Bool
+	var callErr atomic.Value
+	uid := "hs-" + h.name
+	echo := func(u string) rueidis.Completed {
+		return client.B().Arbitrary("VERIF.ECHO").Keys("k").Args(u, "str").Build()
+	}
+	go func() {
+		var err error
+		switch h.kind {
+		case "Do":
+			err = client.Do(ctx, echo(uid)).Error()
+		case "DoMulti":
+			for _, r := range client.DoMulti(ctx, echo(uid+"-a"), echo(uid+"-b")) {
+				if r.Error() != nil {
+					err = r.Error()
+				}
+			}
+		case "DoCache":
+			err = client.DoCache(ctx, client.B().Get().Key("ck").Cache(), time.Minute).Error()
+		case "DoMultiCache":
+			for _, r := range client.DoMultiCache(ctx, rueidis.CT(client.B().Get().Key("ck").Cache(), time.Minute), rueidis.CT(client.B().Get().Key("ck2").Cache(), time.Minute)) {
+				if r.Error() != nil {
+					err = r.Error()
+				}
+			}
+		case "Receive":
+			err = client.Receive(ctx, client.B().Subscribe().Channel(uid).Build(), func(rueidis.PubSubMessage) {})
+		}
+		callErr.Store(fmt.Sprint(err))
+		callReturned.Store(true)
+	}()
+	synctest.Wait()
+	if !held.Load() || callReturned.Load() {
+		run.Inconclusive("handshake: the first call of a fresh client was not held as the first waiter of its wire: " + h.String())
+	} else {
+		run.Observe("handshake_call_held_as_first_waiter", 1)
+	}
+	closeAt := time.Now()
+	var closeTook atomic.Int64
+	go func() { client.Close(); closeTook.Store(int64(time.Since(closeAt))); closeReturned.Store(true) }()
+	// virtual: well past the one second that Close grants its farewell PING
+	time.Sleep(5 * time.Second)
+	synctest.Wait()
+	if released.Load() && !expired.Load() {
+		run.Observe("handshake_call_released_by_close_hook", 1)
+		if stopping1.Load() {
+			// Close found the wire in synchronous mode (state 0 -> 2): the interleaving this family is about
+			run.Observe("handshake_close_switched_sync_wire_while_call_registered", 1)
+		}
+	} else {
+		run.Inconclusive("handshake: client.Close() never reached the wire of the held call: " + h.String())
+		if !released.Load() {
+			close(release)
+		}
+		time.Sleep(time.Second)
+		synctest.Wait()
+	}
+	key := fmt.Sprintf("handshake|%s|ctx=%s", h.kind, h.ctx)
+	if !callReturned.Load() {
+		run.Violation("call-still-pending", key, map[string]any{"scenario": h.String(),
+			"history": "the call registered as the first waiter of a wire in synchronous mode, client.Close() switched the wire to closing, the call went on; 5 virtual seconds later it has not returned"})
+	} else {
+		run.Observe("handshake_call_returned", 1)
+		if e, _ := callErr.Load().(string); e == fmt.Sprint(rueidis.ErrClosing) {
+			run.Observe("handshake_call_got_ErrClosing", 1)
+		}
+	}
+	if !closeReturned.Load() {
+		run.Violation("close-does-not-return", "client.Close|"+key, map[string]any{"scenario": h.String()})
+	} else {
+		run.Observe("handshake_close_returned", 1)
+		if time.Duration(closeTook.Load()) >= time.Second {
+			// not a verdict (the statement sets no bound): Close sat out the full second it grants its farewell PING
+			run.Observe("handshake_close_sat_out_its_full_second", 1)
+		}
+	}
+	res := client.Do(context.Background(), echo("closed-"+uid))
+	if res.Error() != rueidis.ErrClosing {
+		run.Violation("call-after-close-not-ErrClosing", "Do|handshake", map[string]any{"scenario": h.String(), "err": fmt.Sprint(res.Error())})
+	}
+	rueidis.VerifSetHook(nil)
+	srv.Close()
+	// the bubble ends here: a goroutine of the client that is still parked (the farewell-PING helper of Close, the
+	// background worker, ...) is reported by the caller as hang-or-leak
+	run.Case(fmt.Sprintf("handshake|%s|%s|%s/%d", h.kind, h.ctx, h.queue, h.scale), true)
+}
+
 // C04: broken connections and Close never leave calls hanging.
 func TestC04(t *testing.T) {
 	run := mon.Start(t, "C04", "fault_enumeration",
 		"failure {connection killed (EOF), server stops answering (keep-alive ping + write timeout), connection cut in the middle of a frame, client.Close} x pending mix drawn from {sync/queued Do, DoMulti half answered, DoCache owner, DoCache waiter, DoMultiCache, Receive on SUBSCRIBE / PSUBSCRIBE / SSUBSCRIBE (in its message loop or awaiting the confirmation), BLPOP on the blocking pool, DoStream, Dedicated} "+
 			"x queue {ring, flowbuffer with 2 or 16 slots (full queue)} x AlwaysPipelining; each history in a synctest bubble: after the failure every pending call must have returned within 8 virtual seconds, held commands must not succeed, the next call is served on a new connection id, "+
-			"calls after Close get ErrClosing and reach no server, and no goroutine of rueidis stays parked when the bubble ends; a case = (failure, queue, pending kinds)")
+			"calls after Close get ErrClosing and reach no server, and no goroutine of rueidis stays parked when the bubble ends; a case = (failure, queue, pending kinds); "+
+			"plus a hand-shake family {Do, DoMulti, DoCache, DoMultiCache, Receive} x ctx {background, deadline, cancel} x queue: the first call of a fresh client is held right after it registered on its synchronous-mode wire (hook pipe.do.registered, waits==1) "+
+			"and released by client.Close() right after Close switched the wire to closing (hook pipe.close.swapped): the call and Close must return and no goroutine may stay parked")
 	defer run.Finish()
 	run.Assume("virtual time: KeepAlive 1 s, ConnWriteTimeout 2 s, 1 s close grace => 8 s bound", "fakeredis Stall/Kill/Raw fault rules; a held command's reply never leaves the server")
 	livelocks := 0
@@ -525,6 +707,21 @@ func TestC04(t *testing.T) {
 			run.Sample(sc.String())
 		}
 	}
+	for _, h := range genHandshakes() {
+		h := h
+		dl, stacks, frozen := drv.BubbleRT(t, 90*time.Second, func() { runHandshake(run, h) })
+		rueidis.VerifSetHook(nil)
+		if frozen != nil {
+			run.Inconclusive("handshake bubble did not finish in 90 s of real time: " + h.String() + " " + strings.Join(frozen, ";"))
+			break
+		}
+		if dl != "" {
+			run.Violation("hang-or-leak", fmt.Sprintf("handshake|%s|%s", h.kind, strings.Join(drv.RueidisFrames(stacks), ";")), map[string]any{"scenario": h.String(), "synctest": dl,
+				"meaning":        "client.Close() returned and every call returned, but a goroutine of the client is parked for ever when the history ends: the connection's teardown never finished",
+				"rueidis_frames": drv.RueidisFrames(stacks), "stacks": drv.Tail(stacks, 16000)})
+		}
+	}
+	run.Require("handshake_call_held_as_first_waiter", "handshake_call_released_by_close_hook", "handshake_close_switched_sync_wire_while_call_registered", "handshake_call_returned", "handshake_close_returned")
 	run.Require("pending_calls_returned", "pending_calls_got_error", "served_by_fresh_connection", "served_by_new_connection_id", "pending_at_close_returned", "calls_after_close",
 		// a Receive of each registry (channels, patterns, sharded channels) was in its message loop when the connection failed / the client was closed
 		"receive_in_message_loop_at_failure_subscribe", "receive_in_message_loop_at_failure_psubscribe", "receive_in_message_loop_at_failure_ssubscribe",
